@@ -391,7 +391,14 @@ def obsSeq (ws rhs : List String) (prev : Store) : Option (String × Store × Li
 def obsSan (ws : List String) : Option String := do
   let h := kv ws "in"
   let b ← if h == "." then some [] else bytesOfHex h.toList
-  some s!"out={hexOrDot (sanitize Extracted.printable b)}"
+  -- `ok=<64 hex digits>`: a user supplied `check_printable_char` as a 256-bit table (bit `c % 8` of byte `c / 8`);
+  -- without it the default predicate as extracted
+  let tbl := kv ws "ok"
+  if tbl == "" then some s!"out={hexOrDot (sanitize Extracted.printable b)}"
+  else
+    let t ← bytesOfHex tbl.toList
+    let ok : UInt8 → Bool := fun c => ((t.getD (c.toNat / 8) 0).toNat / (2 ^ (c.toNat % 8))) % 2 == 1
+    some s!"out={hexOrDot (sanitizeBy ok b)}"
 
 def obsGuard (ws : List String) : Option String := do
   let args ← parseArgList (kv ws "a")
